@@ -4,7 +4,7 @@ import RawPanelVerif.Lemmas.LifecycleInvC
 namespace RawPanelVerif.Lifecycle
 
 def wRank : WSt → Nat
-  | .unborn => 2 | .spawned => 2 | .running => 1 | .exited => 0
+  | .unborn => 3 | .spawned => 3 | .writing => 2 | .running => 1 | .exited => 0
 
 def phaseRank : Phase → Nat
   | .returned => 0 | .dialing => 0
@@ -12,14 +12,15 @@ def phaseRank : Phase → Nat
   | .teardown .callback => 2 | .teardown .close => 3 | .teardown .quit => 4
   | .connected => 5 | .announcing => 6 | .probing => 9
 
-def connRank (c : Conn) : Nat := wRank c.w + (c.arrived - c.delivered)
+/-- writer goroutine + two steps (take, send) per frame that has arrived and is not delivered (one if already taken) -/
+def connRank (c : Conn) : Nat := wRank c.w + 2 * (c.arrived - c.delivered) + (if c.held then 0 else 1)
 
 def connsRank : List Conn → Nat
   | [] => 0
   | c :: r => connRank c + connsRank r
 
 /-- upper bound on the number of program steps that can follow without a step of the environment -/
-def measure (s : St) : Nat := phaseRank s.phase + connsRank s.conns
+def measure (s : St) : Nat := phaseRank s.phase + connsRank s.conns + 2 * s.offered
 
 theorem connsRank_set : ∀ (cs : List Conn) (i : Nat) (c c' : Conn), cs[i]? = some c →
     connsRank (cs.set i c') + connRank c = connsRank cs + connRank c'
@@ -30,88 +31,134 @@ theorem connsRank_set : ∀ (cs : List Conn) (i : Nat) (c c' : Conn), cs[i]? = s
     have := connsRank_set r i c c' h
     simp [connsRank]; omega
 
-theorem program_step_decreases (ae : Bool) (s s' : St) (l : Lbl) (hl : l.isProgram = true)
+/-- the rank of a connection whose writer state alone changes -/
+theorem connRank_w (c : Conn) (w' : WSt) : connRank { c with w := w' } + wRank c.w = connRank c + wRank w' := by
+  simp [connRank, Conn.arrived]; omega
+
+theorem program_step_decreases (ae : Bool) (s s' : St) (l : Lbl) (hC : InvC s) (hl : l.isProgram = true)
     (hs : step ae s l = some s') : measure s' < measure s := by
   unfold measure
   cases l with
   | cancel => simp [Lbl.isProgram, Lbl.isEnv] at hl
-  | dialOk => simp [Lbl.isProgram, Lbl.isEnv] at hl
+  | offer => simp [Lbl.isProgram, Lbl.isEnv] at hl
+  | consumerStop => simp [Lbl.isProgram, Lbl.isEnv] at hl
+  | consumerResume => simp [Lbl.isProgram, Lbl.isEnv] at hl
+  | tick d => simp [Lbl.isProgram, Lbl.isEnv] at hl
+  | writeDone i => simp [Lbl.isProgram, Lbl.isEnv] at hl
+  | dialOk bin => simp [Lbl.isProgram, Lbl.isEnv] at hl
   | dialFail => simp [Lbl.isProgram, Lbl.isEnv] at hl
   | peerClose => simp [Lbl.isProgram, Lbl.isEnv] at hl
-  | frameComplete => simp [Lbl.isProgram, Lbl.isEnv] at hl
-  | noConnTimer => obtain ⟨hp, rfl⟩ := step_noConnTimer hs; simp [hp, phaseRank]
-  | sleepDone => obtain ⟨hp, rfl⟩ := step_sleepDone hs; simp [hp, phaseRank]
+  | byteArrive fin => simp [Lbl.isProgram, Lbl.isEnv] at hl
+  | noConnTimer => obtain ⟨hp, _, rfl⟩ := step_noConnTimer hs; simp [hp, phaseRank]
+  | noConnDrain => obtain ⟨hp, ho, rfl⟩ := step_noConnDrain hs; simp [hp, phaseRank]; omega
+  | sleepDone => obtain ⟨hp, _, rfl⟩ := step_sleepDone hs; simp [hp, phaseRank]
   | onConnect => obtain ⟨hp, rfl⟩ := step_onConnect hs; simp [hp, phaseRank]
   | ret => obtain ⟨hp, rfl⟩ := step_ret hs; rcases hp with hp | ⟨hp, _⟩ <;> simp [hp, phaseRank]
-  | readErr => obtain ⟨c, rest, hc, hp, _, rfl⟩ := step_readErr hs; simp [hp, phaseRank]
+  | readErr => obtain ⟨c, rest, hc, hp, _, _, rfl⟩ := step_readErr hs; simp [hp, phaseRank]
+  | readFault =>
+    obtain ⟨c, rest, hc, hp, _, _, _, _, _, rfl⟩ := step_readFault hs
+    simp [hc, hp, phaseRank, connsRank, connRank, Conn.arrived]
   | onDisconnect b =>
     obtain ⟨c, rest, hc, hp, _, rfl⟩ := step_onDisconnect hs
     cases b <;> simp [hp, phaseRank]
   | spawnWriter =>
     obtain ⟨c, rest, hc, hp, rfl⟩ := step_spawnWriter hs
-    have : wRank c.w ≤ 2 := by cases c.w <;> simp [wRank]
-    simp [hc, hp, phaseRank, connsRank, connRank, wRank]
-    omega
+    have : wRank c.w ≤ 3 := by cases c.w <;> simp [wRank]
+    have hu : c.w = .unborn := (hC 0 c (by simp [hc])).unbornIff.mpr ⟨rfl, hp⟩
+    simp [hc, hp, phaseRank, connsRank, connRank, wRank, hu, Conn.arrived]
+  | takeFrame =>
+    obtain ⟨c, rest, hc, hp, hh, hlt, _, rfl⟩ := step_takeFrame hs
+    simp [hc, connsRank, connRank, hh, Conn.arrived]
   | deliver =>
-    obtain ⟨c, rest, hc, hp, hlt, _, rfl⟩ := step_deliver hs
-    simp [hc, connsRank, connRank]; omega
+    obtain ⟨c, rest, hc, hp, hh, _, rfl⟩ := step_deliver hs
+    have := (hC 0 c (by simp [hc])).delLe
+    simp [hh] at this
+    simp [hc, connsRank, connRank, hh, Conn.arrived] at this ⊢; omega
   | closeQuit =>
     obtain ⟨c, rest, hc, hp, rfl⟩ := step_closeQuit hs
-    simp [hc, hp, phaseRank, connsRank, connRank]
+    simp [hc, hp, phaseRank, connsRank, connRank, Conn.arrived]
   | connClose =>
     obtain ⟨c, rest, hc, hp, rfl⟩ := step_connClose hs
-    simp [hc, hp, phaseRank, connsRank, connRank]
+    simp [hc, hp, phaseRank, connsRank, connRank, Conn.arrived]
   | writerStart i =>
     obtain ⟨c, hc, hw, rfl⟩ := step_writerStart hs
-    have := connsRank_set s.conns i c { c with w := .running } hc
-    simp [connRank, wRank, hw] at this ⊢; omega
+    have h1 := connsRank_set s.conns i c { c with w := .running } hc
+    have h2 := connRank_w c .running
+    simp [wRank, hw] at h1 h2 ⊢; omega
   | writerSeesCancel i =>
     obtain ⟨c, hc, hw, _, rfl⟩ := step_writerSeesCancel hs
-    have := connsRank_set s.conns i c { c with w := .exited, exit := true, closed := true } hc
-    simp [connRank, wRank, hw] at this ⊢; omega
+    have h1 := connsRank_set s.conns i c { c with w := .exited, exit := true, closed := true } hc
+    have h2 : connRank { c with w := .exited, exit := true, closed := true } + wRank c.w = connRank c + wRank .exited := by
+      simp [connRank, Conn.arrived]; omega
+    simp [wRank, hw] at h1 h2 ⊢; omega
   | writerSeesQuit i =>
     obtain ⟨c, hc, hw, _, rfl⟩ := step_writerSeesQuit hs
-    have := connsRank_set s.conns i c { c with w := .exited } hc
-    simp [connRank, wRank, hw] at this ⊢; omega
+    have h1 := connsRank_set s.conns i c { c with w := .exited } hc
+    have h2 := connRank_w c .exited
+    simp [wRank, hw] at h1 h2 ⊢; omega
+  | writerTake i =>
+    obtain ⟨c, hc, hw, ho, rfl⟩ := step_writerTake hs
+    have h1 := connsRank_set s.conns i c { c with w := .writing } hc
+    have h2 := connRank_w c .writing
+    simp [wRank, hw] at h1 h2 ⊢; omega
+  | writeErr i =>
+    obtain ⟨c, hc, hw, _, rfl⟩ := step_writeErr hs
+    have h1 := connsRank_set s.conns i c { c with w := .running } hc
+    have h2 := connRank_w c .running
+    simp [wRank, hw] at h1 h2 ⊢; omega
 
-/-- a program-only execution is no longer than the measure of its first state -/
-theorem program_run_bounded (ae : Bool) : ∀ (ls : List Lbl) (s s' : St), (∀ l ∈ ls, l.isProgram = true) →
+/-- a program-only execution from a reachable state is no longer than the measure of its first state -/
+theorem program_run_bounded (ae : Bool) : ∀ (ls : List Lbl) (s s' : St), Reachable ae s → (∀ l ∈ ls, l.isProgram = true) →
     run ae s ls = some s' → ls.length + measure s' ≤ measure s
-  | [], s, s', _, hr => by simp [run] at hr; subst hr; simp
-  | l :: ls, s, s', hp, hr => by
+  | [], s, s', _, _, hr => by simp [run] at hr; subst hr; simp
+  | l :: ls, s, s', hR, hp, hr => by
     simp only [run] at hr
     cases hst : step ae s l with
     | none => simp [hst] at hr
     | some s1 =>
       simp [hst] at hr
-      have h1 := program_step_decreases ae s s1 l (hp l (by simp)) hst
-      have h2 := program_run_bounded ae ls s1 s' (fun l hl => hp l (by simp [hl])) hr
+      have h1 := program_step_decreases ae s s1 l (invC_reachable hR) (hp l (by simp)) hst
+      have h2 := program_run_bounded ae ls s1 s' (Reachable.step l hR hst) (fun l hl => hp l (by simp [hl])) hr
       simp; omega
 
-/-- after cancellation the program can always move on unless the call has returned or it waits for the dial result -/
+/-- the four states in which a cancelled call waits for somebody else:
+`net.Dial` has not answered; the retry sleep is not over; the reader is in `msgsFromPanel <-` and nobody receives;
+the writer of the current connection is inside `conn.Write` on a socket that is open at both ends -/
+inductive Waiting (s : St) : Prop
+  | dial : s.phase = .dialing → Waiting s
+  | sleep : s.phase = .retrySleep → s.now < s.wake → Waiting s
+  | consumer (c : Conn) (rest : List Conn) : s.phase = .connected → s.conns = c :: rest → c.held = true → s.consumer = false → Waiting s
+  | write (c : Conn) (rest : List Conn) : s.phase = .connected → s.conns = c :: rest → c.held = false → c.w = .writing →
+      c.closed = false → c.peerClosed = false → Waiting s
+
+/-- after cancellation the program can always move on unless the call has returned or it is in one of the four
+waiting states -/
 theorem cancelled_progress (ae : Bool) (s : St) (ha : InvA s) (hc : InvC s) (hcan : s.cancelled = true)
-    (hph : s.phase ≠ .returned ∧ s.phase ≠ .dialing) : ∃ l, l.isProgram = true ∧ (step ae s l).isSome = true := by
+    (hph : s.phase ≠ .returned) : (∃ l, l.isProgram = true ∧ (step ae s l).isSome = true) ∨ Waiting s := by
   cases hp : s.phase with
   | returned => simp [hp] at hph
-  | dialing => simp [hp] at hph
-  | noConnWait => exact ⟨.ret, rfl, by simp [step, hp, hcan]⟩
-  | retrySleep => exact ⟨.sleepDone, rfl, by simp [step, hp]⟩
-  | exiting => exact ⟨.ret, rfl, by simp [step, hp]⟩
-  | announcing => exact ⟨.onConnect, rfl, by simp [step, hp]⟩
+  | dialing => exact Or.inr (.dial hp)
+  | noConnWait => exact Or.inl ⟨.ret, rfl, by simp [step, hp, hcan]⟩
+  | retrySleep =>
+    by_cases hw : s.wake ≤ s.now
+    · exact Or.inl ⟨.sleepDone, rfl, by simp [step, hp, hw]⟩
+    · exact Or.inr (.sleep hp (by omega))
+  | exiting => exact Or.inl ⟨.ret, rfl, by simp [step, hp]⟩
+  | announcing => exact Or.inl ⟨.onConnect, rfl, by simp [step, hp]⟩
   | probing =>
     have hne := ha.nonempty (Or.inl hp)
     cases hcs : s.conns with
     | nil => exact absurd hcs hne
-    | cons c rest => exact ⟨.spawnWriter, rfl, by simp [step, hp, hcs]⟩
+    | cons c rest => exact Or.inl ⟨.spawnWriter, rfl, by simp [step, hp, hcs]⟩
   | teardown t =>
     have hne := ha.nonempty (Or.inr (Or.inr (by simp [hp, Phase.live])))
     cases hcs : s.conns with
     | nil => exact absurd hcs hne
     | cons c rest =>
       cases t with
-      | quit => exact ⟨.closeQuit, rfl, by simp [step, hp, hcs]⟩
-      | close => exact ⟨.connClose, rfl, by simp [step, hp, hcs]⟩
-      | callback => exact ⟨.onDisconnect c.exit, rfl, by simp [step, hp, hcs]⟩
+      | quit => exact Or.inl ⟨.closeQuit, rfl, by simp [step, hp, hcs]⟩
+      | close => exact Or.inl ⟨.connClose, rfl, by simp [step, hp, hcs]⟩
+      | callback => exact Or.inl ⟨.onDisconnect c.exit, rfl, by simp [step, hp, hcs]⟩
   | connected =>
     have hne := ha.nonempty (Or.inr (Or.inr (by simp [hp, Phase.live])))
     cases hcs : s.conns with
@@ -119,15 +166,28 @@ theorem cancelled_progress (ae : Bool) (s : St) (ha : InvA s) (hc : InvC s) (hca
     | cons c rest =>
       have g := hc 0 c (by simp [hcs])
       rw [hp] at g
-      cases hw : c.w with
-      | unborn => have := g.unbornIff.mp hw; simp at this
-      | spawned => exact ⟨.writerStart 0, rfl, by simp [step, hcs, hw]⟩
-      | running => exact ⟨.writerSeesCancel 0, rfl, by simp [step, hcs, hw, hcan]⟩
-      | exited =>
-        have hq : c.quit = false := g.noQuit rfl (by simp [Phase.preQuit])
-        rcases g.exited hw with he | he
-        · have hcl := (g.exitDone he).2
-          exact ⟨.readErr, rfl, by simp [step, hp, hcs, hcl]⟩
-        · simp [hq] at he
+      cases hh : c.held with
+      | true =>
+        cases hco : s.consumer with
+        | true => exact Or.inl ⟨.deliver, rfl, by simp [step, hp, hcs, hh, hco]⟩
+        | false => exact Or.inr (.consumer c rest hp hcs hh hco)
+      | false =>
+        cases hw : c.w with
+        | unborn => have := g.unbornIff.mp hw; simp at this
+        | spawned => exact Or.inl ⟨.writerStart 0, rfl, by simp [step, hcs, hw]⟩
+        | running => exact Or.inl ⟨.writerSeesCancel 0, rfl, by simp [step, hcs, hw, hcan]⟩
+        | writing =>
+          cases hcl : c.closed with
+          | true => exact Or.inl ⟨.writeErr 0, rfl, by simp [step, hcs, hw, hcl]⟩
+          | false =>
+            cases hpc : c.peerClosed with
+            | true => exact Or.inl ⟨.writeErr 0, rfl, by simp [step, hcs, hw, hpc]⟩
+            | false => exact Or.inr (.write c rest hp hcs hh hw hcl hpc)
+        | exited =>
+          have hq : c.quit = false := g.noQuit rfl (by simp [Phase.preQuit])
+          rcases g.exited hw with he | he
+          · have hcl := (g.exitDone he).2
+            exact Or.inl ⟨.readErr, rfl, by simp [step, hp, hcs, hcl, hh]⟩
+          · simp [hq] at he
 
 end RawPanelVerif.Lifecycle
